@@ -54,6 +54,18 @@ func (tc *TotalCalculator) Calculate(t *Total) error {
 	return nil
 }
 
+// Prepare resolves the rate keys of the set's combos for the country, tags and
+// date given, as Calculate does for the lines it is handed, without adding
+// anything to a total.
+func (s Set) Prepare(country l10n.TaxCountryCode, tags []cbc.Key, date cal.Date) error {
+	for _, combo := range s {
+		if err := combo.calculate(country, tags, date); err != nil {
+			return err
+		}
+	}
+	return nil
+}
+
 func (tc *TotalCalculator) prepareLines(taxLines []*taxLine) error {
 	// First, prepare all tax combos using the country, tags, and date
 	for _, tl := range taxLines {
